@@ -23,10 +23,12 @@ func (c *zzRecConn) Read(p []byte) (int, error) {
 	c.in = c.in[n:]
 	return n, nil
 }
-func (c *zzRecConn) Write(p []byte) (int, error)        { c.out += len(p); return len(p), nil }
-func (c *zzRecConn) Close() error                       { return nil }
-func (c *zzRecConn) LocalAddr() net.Addr                { return &net.TCPAddr{IP: net.IPv4(10, 0, 0, 1), Port: 443} }
-func (c *zzRecConn) RemoteAddr() net.Addr               { return &net.TCPAddr{IP: net.IPv4(10, 0, 0, 2), Port: 40000} }
+func (c *zzRecConn) Write(p []byte) (int, error) { c.out += len(p); return len(p), nil }
+func (c *zzRecConn) Close() error                { return nil }
+func (c *zzRecConn) LocalAddr() net.Addr         { return &net.TCPAddr{IP: net.IPv4(10, 0, 0, 1), Port: 443} }
+func (c *zzRecConn) RemoteAddr() net.Addr {
+	return &net.TCPAddr{IP: net.IPv4(10, 0, 0, 2), Port: 40000}
+}
 func (c *zzRecConn) SetDeadline(t time.Time) error      { return nil }
 func (c *zzRecConn) SetReadDeadline(t time.Time) error  { return nil }
 func (c *zzRecConn) SetWriteDeadline(t time.Time) error { return nil }
